@@ -44,6 +44,8 @@ type callSite struct {
 }
 
 type extractor struct {
+	base int // first line of the top-level function being walked: lines are reported relative to it,
+	// so that an edit elsewhere in the file does not change the table
 	fset  *token.FileSet
 	info  *types.Info
 	pkg   string
@@ -216,7 +218,7 @@ func (w *walker) stmt(s ast.Stmt) {
 	case *ast.GoStmt:
 		if _, ok := st.Call.Fun.(*ast.FuncLit); ok {
 			// the literal is numbered next by expr below
-			w.e.calls = append(w.e.calls, callSite{w.fn, fmt.Sprintf("go %s$%d", w.fn, *w.nlit+1), w.copyHeld(), w.e.fset.Position(st.Pos()).Line})
+			w.e.calls = append(w.e.calls, callSite{w.fn, fmt.Sprintf("go %s$%d", w.fn, *w.nlit+1), w.copyHeld(), w.e.fset.Position(st.Pos()).Line - w.e.base})
 		}
 		w.expr(st.Call)
 	case *ast.AssignStmt:
@@ -352,7 +354,7 @@ func (w *walker) expr(x ast.Expr) {
 						name = st + "." + name
 					}
 				}
-				w.e.calls = append(w.e.calls, callSite{w.fn, name, w.copyHeld(), w.e.fset.Position(v.Pos()).Line})
+				w.e.calls = append(w.e.calls, callSite{w.fn, name, w.copyHeld(), w.e.fset.Position(v.Pos()).Line - w.e.base})
 			}
 		case *ast.UnaryExpr:
 			// &x.f : taking the address of a mutex field is not a data access
@@ -368,7 +370,7 @@ func (w *walker) expr(x ast.Expr) {
 				if tv, ok := w.e.info.Types[v]; ok && (isMutexType(tv.Type) || strings.Contains(tv.Type.String(), "sync.WaitGroup")) {
 					return true // the synchronisation objects themselves
 				}
-				w.e.sites = append(w.e.sites, accSite{w.fn, f, w.writes[v], w.copyHeld(), w.e.fset.Position(v.Pos()).Line})
+				w.e.sites = append(w.e.sites, accSite{w.fn, f, w.writes[v], w.copyHeld(), w.e.fset.Position(v.Pos()).Line - w.e.base})
 			}
 		}
 		return true
@@ -424,6 +426,7 @@ func extractDir(dir, pkgName string, imp mapImporter) (*extractor, *types.Packag
 				}
 			}
 			e.funcs[name] = true
+			e.base = fset.Position(fd.Pos()).Line
 			w := &walker{e: e, fn: name, nlit: new(int), writes: map[*ast.SelectorExpr]bool{}}
 			w.stmts(fd.Body.List)
 		}
